@@ -1,7 +1,7 @@
 (* Entry points evaluated by harness-generated case files for the extension models (definitions only).
    Ops 0..9 are in RunCase.v; `run_case_all` dispatches. *)
 From ZV.Common Require Import Base Run.
-From ZV.C02 Require Import Model ModelRec RunCase ModelComp ModelFront.
+From ZV.C02 Require Import Model ModelRec RunCase ModelComp ModelFront RunCaseS RunCaseP.
 Open Scope N_scope.
 
 Definition id_order (t : H.table) : H.table := t.
@@ -160,4 +160,7 @@ Definition run_case_x (op : N) (a b : list N) : list N :=
   end.
 
 Definition run_case_all (op : N) (a b : list N) : list N :=
-  if op <? 10 then run_case op a b else run_case_x op a b.
+  if op <? 10 then run_case op a b
+  else if (30 <=? op) && (op <? 40) then run_case_p op a b
+  else if (40 <=? op) && (op <? 50) then run_case_s op a b
+  else run_case_x op a b.
